@@ -18,7 +18,8 @@ META = {
     "required": ["monitor:lockstep-step", "monitor:invariant", "cases:exhaustive", "cases:random", "cases:program",
                  "monitor:repo-tests-under-contracts",
                  "feature:multi-linked-port", "feature:index-reuse", "feature:delete-middle-of-fanout",
-                 "feature:insert_hugr", "feature:delete-node-with-order-link", "feature:parallel-duplicate-link"],
+                 "feature:insert_hugr", "feature:delete-node-with-order-link", "feature:parallel-duplicate-link",
+                 "monitor:has_link", "monitor:delete_node-result", "feature:order-port-to-value-port-link"],
     "reach": ["hugr.hugr.base:Hugr._add_node", "hugr.hugr.base:Hugr.add_link", "hugr.hugr.base:Hugr.delete_link",
               "hugr.hugr.base:Hugr.delete_node", "hugr.hugr.base:Hugr.insert_hugr",
               "hugr.hugr.base:Hugr._unused_sub_offset"],
@@ -50,6 +51,16 @@ def lockstep(ctx, hist, stratum):
                      exp, obs, stratum=stratum, case=hist)
 
         store.compare(e, o, ex.m, report)
+        ctx.count("monitor:has_link", store.check_has_link(ex.h, ex.m, report))
+        store.check_metadata(ex.h, ex.m, report)
+        if st[0] == "delete_node":
+            # "Returns: the deleted node data"
+            ctx.count("monitor:delete_node-result")
+            before, ret = ex.deleted
+            if ret is not before:
+                report("delete_node-result", "the node data that was stored", repr(ret)[:120])
+        if st[0] == "add_link" and (st[2] == -1) != (st[4] == -1):
+            ctx.feat("feature:order-port-to-value-port-link")
         # handle stability: every live handle still denotes its node
         for k, hd in enumerate(ex.handles):
             if k in ex.dead:
@@ -213,7 +224,7 @@ def run(ctx):
         ctx.guard("repo-tests", None, repo_tests_under_contracts, ctx)
     for i in ctx.mine(ctx.n(4000, 150000)):
         r = ctx.rng("random", i)
-        hist = gen_history(r, max_steps=ctx.n(30, 80), max_nodes=ctx.n(8, 10), metadata=True)
+        hist = gen_history(r, max_steps=ctx.n(30, 80), max_nodes=ctx.n(8, 10), metadata=True, mixed=True)
         nt = ctx.guard("random", hist, lockstep, ctx, hist, "random")
         ctx.case("random", hist, bool(nt))
 
